@@ -142,6 +142,10 @@ pub fn err_variant(e: &ExecutorError) -> String {
             format!("TransactionValidity.{inner}")
         }
         ExecutorError::InvalidTransaction(c) => format!("InvalidTransaction.{}", head(&format!("{c:?}"))),
+        ExecutorError::VmExecution { error, .. } => {
+            let t: String = error.trim_start_matches("Execution error: ").chars().take_while(|c| c.is_alphanumeric() || *c == '_' || *c == '(').map(|c| if c == '(' { '.' } else { c }).collect();
+            format!("VmExecution.{}", t.trim_end_matches('.'))
+        }
         other => head(&format!("{other:?}")),
     }
 }
@@ -150,15 +154,19 @@ pub fn err_variant(e: &ExecutorError) -> String {
 fn head(s: &str) -> String {
     let mut out = String::new();
     let mut depth = 0;
-    for ch in s.chars() {
+    let chars: Vec<char> = s.chars().collect();
+    let mut i = 0;
+    while i < chars.len() {
+        let ch = chars[i];
         if ch.is_alphanumeric() || ch == '_' {
             out.push(ch);
-        } else if ch == '(' && depth < 1 {
+        } else if ch == '(' && depth < 2 && chars.get(i + 1).map(|c| c.is_ascii_uppercase()).unwrap_or(false) {
             depth += 1;
             out.push('.');
         } else {
             break;
         }
+        i += 1;
     }
     out.trim_end_matches('.').to_string()
 }
